@@ -19,8 +19,11 @@ import (
 	"math"
 	"os"
 	"regexp"
+	"runtime/debug"
 	"sort"
 	"strings"
+	"syscall"
+	"unsafe"
 
 	"github.com/sarchlab/akita/v4/mem/vm"
 	"github.com/sarchlab/mgpusim/v4/amd/emu"
@@ -233,6 +236,8 @@ type outcome struct {
 	MLog  []memAccess
 	ExecR bool
 	ExecW bool
+	// offset of an access that hit the protected part of the LDS (-1: none)
+	LDSFault int
 }
 
 type Result struct {
@@ -316,6 +321,9 @@ func decode(sp *Spec) (inst *insts.Inst, err error) {
 	return inst, nil
 }
 
+// ldsArena is a page-aligned 64 KiB mapping used as the LDS of discipline cases.
+var ldsArena []byte
+
 func ldsInit(n int) []byte {
 	l := make([]byte, n)
 	for i := range l {
@@ -350,15 +358,39 @@ func execute(sp *Spec, inst *insts.Inst, exec uint64) (o outcome) {
 		alu = emu.NewALU(ms)
 	}
 	lds := ldsInit(sp.LDSSz)
+	guarded := sp.LDSSz == ldsSize && ldsArena != nil
+	if guarded {
+		// the LDS is a plain Go slice, so reads cannot be logged; instead the
+		// half that only inactive lanes point to is made inaccessible: any
+		// read or write there faults and is reported
+		copy(ldsArena, lds)
+		lds = ldsArena
+		if err := syscall.Mprotect(ldsArena[ldsPoison:], syscall.PROT_NONE); err != nil {
+			panic(err)
+		}
+	}
 	alu.SetLDS(lds)
+	o.LDSFault = -1
 	func() {
 		defer func() {
 			if x := recover(); x != nil {
 				o.Panic = fmt.Sprint(x)
+				if f, ok := x.(interface{ Addr() uintptr }); ok && guarded {
+					base := uintptr(unsafe.Pointer(&ldsArena[0]))
+					if f.Addr() >= base && f.Addr() < base+ldsSize {
+						o.LDSFault = int(f.Addr() - base)
+					}
+				}
 			}
 		}()
 		alu.Run(st)
 	}()
+	if guarded {
+		if err := syscall.Mprotect(ldsArena[ldsPoison:], syscall.PROT_READ|syscall.PROT_WRITE); err != nil {
+			panic(err)
+		}
+		lds = append([]byte(nil), ldsArena...)
+	}
 	o.Exec, o.VCC, o.SCC, o.M0, o.PC = wf.EXEC(), wf.VCC(), wf.SCC(), wf.M0, wf.PC()
 	o.SGPR = make([]uint32, 102)
 	for i := range o.SGPR {
@@ -647,6 +679,11 @@ func runVectorCase(sp Spec) Result {
 	}
 	res.NonTriv = sp.Exec != 0 && sp.Exec != ^uint64(0) && o1.Panic == ""
 	if sp.Excpt {
+		return res
+	}
+	if o1.LDSFault >= 0 {
+		res.Kind = "discipline"
+		res.Fail = fmt.Sprintf("LDS byte %#x accessed (read or write): only inactive lanes point into that region", o1.LDSFault)
 		return res
 	}
 	if o1.Panic == "" {
@@ -1046,6 +1083,9 @@ func prepareAddresses(sp *Spec, inst *insts.Inst, r *vh.Rng) {
 				}
 			case !bit(sp.Exec, l):
 				a = ldsPoison + uint32(r.Intn(4096))
+				if r.Intn(8) == 0 {
+					a = 0xfffff000 + uint32(r.Intn(2048)) // beyond any LDS allocation
+				}
 			case pool:
 				a = uint32(r.Intn(24)) * 4
 			default:
@@ -1141,6 +1181,9 @@ func genVector(h *Handler, r *vh.Rng) Spec {
 		if r.Intn(3) == 0 {
 			x.off0, x.off1 = uint32(r.Intn(4)), uint32(r.Intn(4))
 		}
+		if corrMode { // the whole (small) LDS is shipped to Coq
+			x.off0, x.off1 = uint32(r.Intn(48)), uint32(r.Intn(48))
+		}
 	case "flat":
 		x.addr, x.data0 = uint32(r.Intn(nVRegs-1)), uint32(r.Intn(9))
 		if r.Intn(4) == 0 {
@@ -1218,43 +1261,101 @@ func genScalar(h *Handler, r *vh.Rng) Spec {
 
 // ---------------------------------------------------------------- correspondence with Coq
 
-// representative handlers whose per-lane function is transcribed in
-// coq/isa/Lanes.v (constructor names of VIsa.Lanes.hid)
-var corrTable = map[string]string{
-	"gcn3/vop1/1": "H_mov", "cdna3/vop1/1": "H_mov",
-	"gcn3/vop1/43": "H_not", "cdna3/vop1/43": "H_not",
-	"gcn3/vop2/25": "H_add_co_gcn3", "gcn3/vop2/52": "H_add_co_gcn3",
-	"cdna3/vop2/25": "H_add_co_cdna3",
-	"gcn3/vop2/26": "H_sub_co_gcn3",
-	"gcn3/vop2/28": "H_addc_gcn3", "cdna3/vop2/28": "H_addc_cdna3",
-	"gcn3/vop2/0": "H_cndmask", "cdna3/vop2/0": "H_cndmask",
-	"gcn3/vop3a/256": "H_cndmask_e64", "cdna3/vop3a/256": "H_cndmask_e64",
-	"gcn3/vop2/18": "H_lshlrev", "cdna3/vop2/18": "H_lshlrev",
-	"gcn3/vop2/19": "H_and", "cdna3/vop2/19": "H_and",
-	"gcn3/vopc/201": "H_cmp_lt_u32_gcn3", "cdna3/vopc/201": "H_cmp_lt_u32_cdna3",
-	"gcn3/vopc/202": "H_cmp_eq_u32", "cdna3/vopc/202": "H_cmp_eq_u32",
-	"gcn3/vop3a/202": "H_cmp_eq_u32_e64", "cdna3/vop3a/202": "H_cmp_eq_u32_e64",
-	"gcn3/vop3a/201": "H_cmp_lt_u32_e64_gcn3", "cdna3/vop3a/201": "H_cmp_lt_u32_e64_cdna3",
-	"gcn3/vop3a/488": "H_mad_u64_u32_gcn3", "cdna3/vop3a/488": "H_mad_u64_u32_cdna3",
-	"gcn3/vop3a/511": "H_add3", "cdna3/vop3a/511": "H_add3",
-	"gcn3/vop3b/284": "H_addc_e64", "cdna3/vop3b/284": "H_addc_e64",
-	"gcn3/vop3b/281": "H_add_co_e64", "cdna3/vop3b/281": "H_add_co_e64",
-	"gcn3/flat/20": "H_flat_load_dword", "cdna3/flat/20": "H_flat_load_dword",
-	"gcn3/flat/21": "H_flat_load_dwordx2", "cdna3/flat/21": "H_flat_load_dwordx2",
-	"gcn3/flat/28": "H_flat_store_dword", "cdna3/flat/28": "H_flat_store_dword",
-	"gcn3/flat/29": "H_flat_store_dwordx2", "cdna3/flat/29": "H_flat_store_dwordx2",
-	"gcn3/ds/54": "H_ds_read_b32", "cdna3/ds/54": "H_ds_read_b32",
-	"gcn3/ds/13": "H_ds_write_b32", "cdna3/ds/13": "H_ds_write_b32",
-	"gcn3/ds/14": "H_ds_write2_b32", "cdna3/ds/14": "H_ds_write2_b32",
-	"gcn3/ds/55": "H_ds_read2_b32", "cdna3/ds/55": "H_ds_read2_b32",
+// Handlers whose per-lane function exists in Coq: own transcriptions of
+// coq/isa/LanesCorr.v (constructor terms of VIsa.LanesCorr.hid) ...
+var corrOwn = map[string][]string{
+	"gcn3/vop1/1": {"H_mov"}, "cdna3/vop1/1": {"H_mov"},
+	"gcn3/vop1/76": {"H_mov"}, // v_log_legacy_f32 is implemented as a move in the GCN3 ALU
+	"cdna3/vop1/56": {"H_mov"}, // v_movrelsd_b32 is implemented as a plain move
+	"gcn3/vop2/42": {"H_lshlrev_b16"}, "cdna3/vop2/42": {"H_lshlrev_b16"},
+	"cdna3/vop2/38": {"H_add_u16"}, "cdna3/vopc/164": {"H_cmp_gt_i16"},
+	"gcn3/vop1/43": {"H_not"}, "cdna3/vop1/43": {"H_not"},
+	"gcn3/vop2/25": {"H_add_co"}, "gcn3/vop2/52": {"H_add_co"}, "cdna3/vop2/25": {"H_add_co"},
+	"gcn3/vop2/26": {"H_sub_co_gcn3"},
+	"gcn3/vop2/28": {"H_addc"}, "cdna3/vop2/28": {"H_addc"},
+	"gcn3/vop2/0": {"H_cndmask"}, "cdna3/vop2/0": {"H_cndmask"},
+	"gcn3/vop3a/256": {"H_cndmask_e64"}, "cdna3/vop3a/256": {"H_cndmask_e64"},
+	"gcn3/vop2/18": {"H_lshlrev"}, "cdna3/vop2/18": {"H_lshlrev"},
+	"gcn3/vop2/19": {"H_and"}, "cdna3/vop2/19": {"H_and"},
+	"gcn3/vopc/201": {"H_cmp_lt_u32"}, "cdna3/vopc/201": {"H_cmp_lt_u32"},
+	"gcn3/vopc/202": {"H_cmp_eq_u32"}, "cdna3/vopc/202": {"H_cmp_eq_u32"},
+	"gcn3/vop3a/202": {"H_cmp_eq_u32_e64"}, "cdna3/vop3a/202": {"H_cmp_eq_u32_e64"},
+	"gcn3/vop3a/201": {"H_cmp_lt_u32_e64"}, "cdna3/vop3a/201": {"H_cmp_lt_u32_e64"},
+	"gcn3/vop3a/488": {"H_mad_u64_u32"}, "cdna3/vop3a/488": {"H_mad_u64_u32"},
+	"gcn3/vop3a/511": {"H_add3"}, "cdna3/vop3a/511": {"H_add3"},
+	"gcn3/vop3b/284": {"H_addc_e64"}, "cdna3/vop3b/284": {"H_addc_e64"},
+	"gcn3/vop3b/281": {"H_add_co_e64"}, "cdna3/vop3b/281": {"H_add_co_e64"},
+	// FLAT: the GCN3 sub-dword loads fetch 4 bytes, the CDNA3 ones 1 or 2
+	"gcn3/flat/16": {"H_flat_load 4 LdU8"}, "cdna3/flat/16": {"H_flat_load 1 LdU8"},
+	"gcn3/flat/17": {"H_flat_load 4 LdS8"}, "cdna3/flat/17": {"H_flat_load 1 LdS8"},
+	"gcn3/flat/18": {"H_flat_load 4 LdU16"}, "cdna3/flat/18": {"H_flat_load 2 LdU16"},
+	"gcn3/flat/20": {"H_flat_load 4 LdRaw"}, "cdna3/flat/20": {"H_flat_load 4 LdRaw"},
+	"gcn3/flat/21": {"H_flat_load 8 LdRaw"}, "cdna3/flat/21": {"H_flat_load 8 LdRaw"},
+	"gcn3/flat/23": {"H_flat_load 16 LdRaw"}, "cdna3/flat/23": {"H_flat_load 16 LdRaw"},
+	"gcn3/flat/28": {"H_flat_store 4"}, "cdna3/flat/28": {"H_flat_store 4"},
+	"gcn3/flat/29": {"H_flat_store 8"}, "cdna3/flat/29": {"H_flat_store 8"},
+	"gcn3/flat/30": {"H_flat_store 12"}, "cdna3/flat/30": {"H_flat_store 12"},
+	"gcn3/flat/31": {"H_flat_store 16"}, "cdna3/flat/31": {"H_flat_store 16"},
+	// DS (ds_read_b64 ignores its offset field in both ALUs)
+	"gcn3/ds/13": {"H_ds_write 4"}, "cdna3/ds/13": {"H_ds_write 4"},
+	"gcn3/ds/14": {"H_ds_write2 4"}, "cdna3/ds/14": {"H_ds_write2 4"},
+	"gcn3/ds/30": {"H_ds_write 1"}, "cdna3/ds/30": {"H_ds_write 1"},
+	"gcn3/ds/54": {"H_ds_read 4 true"}, "cdna3/ds/54": {"H_ds_read 4 true"},
+	"gcn3/ds/55": {"H_ds_read2 4"}, "cdna3/ds/55": {"H_ds_read2 4"},
+	"gcn3/ds/78": {"H_ds_write2 8"}, "cdna3/ds/78": {"H_ds_write2 8"},
+	"gcn3/ds/118": {"H_ds_read 8 false"}, "cdna3/ds/118": {"H_ds_read 8 false"},
+	"gcn3/ds/119": {"H_ds_read2 8"}, "cdna3/ds/119": {"H_ds_read2 8"},
+	"cdna3/ds/223": {"H_ds_write 16"}, "cdna3/ds/255": {"H_ds_read 16 true"},
+}
+
+// ... and the rows of the C03 builder's table coq/isa/ExecImplV.v (vdesc_of),
+// reused through LanesCorr.H_v.  A row missing there is reported by the Coq
+// checker with code 99 ("not modelled") and only counted.
+var corrV = map[string][]int{
+	"gcn3/vop2":  {0, 6, 8, 12, 13, 14, 15, 16, 17, 18, 19, 20, 21, 25, 52, 26, 53, 27, 54, 28, 29, 30},
+	"cdna3/vop2": {0, 6, 8, 12, 13, 14, 15, 16, 17, 18, 19, 20, 21, 25, 52, 26, 53, 27, 54, 28, 29, 30},
+	"gcn3/vop1":  {1, 43, 44}, "cdna3/vop1": {1, 43, 44, 45},
+	"gcn3/vopc":  {193, 195, 196, 197, 198, 201, 202, 203, 204, 205, 206, 232, 233, 234, 235, 236, 237, 238, 239},
+	"cdna3/vopc": {193, 195, 196, 197, 198, 201, 202, 203, 204, 205, 206, 232, 233, 234, 235, 236, 237, 238, 239},
+	"gcn3/vop3a": {193, 195, 196, 198, 201, 202, 203, 204, 205, 206, 233, 256, 450, 451, 456, 457, 465, 466, 468, 469, 471, 472,
+		488, 511, 520, 645, 646, 655, 657},
+	"cdna3/vop3a": {193, 195, 196, 198, 201, 202, 203, 204, 205, 206, 233, 256, 450, 451, 456, 457, 465, 466, 468, 469, 471, 472,
+		488, 509, 510, 511, 512, 520, 645, 646, 655, 657},
+	"gcn3/vop3b": {281, 282, 283, 284, 285, 286}, "cdna3/vop3b": {281, 282, 283, 284, 285, 286},
+}
+
+var coqFmt = map[string]string{"vop1": "F_VOP1", "vop2": "F_VOP2", "vopc": "F_VOPC", "vop3a": "F_VOP3A", "vop3b": "F_VOP3B"}
+
+// corrIDs lists the Coq handler terms for one implemented handler; the second
+// result tells which of them come from the ExecImplV table.
+func corrIDs(h *Handler) (ids []string, fromV []bool) {
+	key := fmt.Sprintf("%s/%s/%d", h.ALU, h.Fmt, h.Opcode)
+	for _, id := range corrOwn[key] {
+		ids, fromV = append(ids, id), append(fromV, false)
+	}
+	for _, op := range corrV[h.ALU+"/"+h.Fmt] {
+		if op == h.Opcode {
+			arch := "GCN3"
+			if h.ALU == "cdna3" {
+				arch = "CDNA3"
+			}
+			ids = append(ids, fmt.Sprintf("H_v IsaState.%s IsaState.%s %d%%Z", arch, coqFmt[h.Fmt], op))
+			fromV = append(fromV, true)
+		}
+	}
+	return
 }
 
 const corrLDS = 1024
+
+var corrMode bool
 
 // genCorr: like genVector but restricted to the operand kinds the Coq model
 // of operand access covers (VGPR, SGPR, constants, VCC as mask) and with the
 // small LDS that is shipped to Coq completely.
 func genCorr(h *Handler, hid string, r *vh.Rng) Spec {
+	corrMode = true
+	defer func() { corrMode = false }()
 	sp := genVector(h, r)
 	sp.Corr = hid
 	for tries := 0; tries < 50; tries++ {
@@ -1356,7 +1457,7 @@ func coqCase(sp *Spec, inst *insts.Inst, o *outcome) string {
 	} else {
 		lds0, lds1 = "[]", "[]"
 	}
-	fmt.Fprintf(&b, "mkCase %s (%s) (%s) (%s) (%s) (%s) (%s) (%s) (%s) %d %d %s\n %d %d %s\n %s\n %s %s\n",
+	fmt.Fprintf(&b, "mkCase (%s) (%s) (%s) (%s) (%s) (%s) (%s) (%s) (%s) %d %d %s\n %d %d %s\n %s\n %s %s\n",
 		sp.Corr, coqOperand(wf, inst.Dst), coqOperand(wf, inst.SDst), coqOperand(wf, inst.Src0), coqOperand(wf, inst.Src1),
 		coqOperand(wf, inst.Src2), coqOperand(wf, inst.Addr), coqOperand(wf, inst.Data), coqOperand(wf, inst.Data1),
 		inst.Offset0, inst.Offset1, sadr,
@@ -1379,10 +1480,17 @@ type Output struct {
 
 func main() {
 	log.SetOutput(io.Discard)
+	debug.SetPanicOnFault(true)
+	if syscall.Getpagesize() <= 4096 || ldsPoison%syscall.Getpagesize() == 0 {
+		if a, err := syscall.Mmap(-1, 0, ldsSize, syscall.PROT_READ|syscall.PROT_WRITE, syscall.MAP_ANON|syscall.MAP_PRIVATE); err == nil {
+			ldsArena = a
+		}
+	}
 	seed := flag.Uint64("seed", 1, "seed")
 	n := flag.Int("n", 30, "random cases per vector handler")
 	ns := flag.Int("ns", 20, "random cases per scalar handler")
-	nc := flag.Int("nc", 4, "correspondence cases per representative handler")
+	nc := flag.Int("nc", 4, "correspondence cases per own transcription")
+	ncv := flag.Int("ncv", 1, "correspondence cases per row of the ExecImplV table")
 	out := flag.String("out", "", "output JSON file")
 	rep := flag.String("replay", "", "JSON file with specs to replay")
 	only := flag.String("only", "", "restrict to handlers whose alu/fmt/opcode key has this prefix")
@@ -1474,8 +1582,13 @@ func main() {
 					res.Samples = append(res.Samples, s)
 				}
 			}
-			if hid, ok := corrTable[key]; ok {
-				for i := 0; i < *nc; i++ {
+			ids, fromV := corrIDs(h)
+			for k, hid := range ids {
+				cnt := *nc
+				if fromV[k] {
+					cnt = *ncv
+				}
+				for i := 0; i < cnt; i++ {
 					sp := genCorr(h, hid, hr.Fork())
 					if sp.Corr == "" {
 						continue
